@@ -37,7 +37,7 @@ ASSUMPTIONS = ["non-space whitespace strictly inside a sequence line (TAB, NBSP,
                "files reducing to an empty sequence, a first header appearing after sequence lines (the reference refuses to judge these: DISCARDED)",
                "lower-case letters count as foreign characters (they are today)",
                "open handles after a call are counted as a probe, not a verdict (the statement does not mention handles)"]
-PROBES = ["second_object_from_same_file_after_mutator", "later_file_in_same_process", "same_file_read_again", "path_rewritten_with_new_content", "file_larger_than_io_buffer", "torn_file", "torn_inside_header", "crlf", "short_reads_1_byte", "chunk_splits_crlf", "eio_fired_before_eof", "eio_scheduled_past_eof",
+PROBES = ["parser_instance_reused", "second_object_from_same_file_after_mutator", "later_file_in_same_process", "same_file_read_again", "path_rewritten_with_new_content", "file_larger_than_io_buffer", "torn_file", "torn_inside_header", "crlf", "short_reads_1_byte", "chunk_splits_crlf", "eio_fired_before_eof", "eio_scheduled_past_eof",
           "open_error", "corrupt_second_header", "corrupt_second_star", "corrupt_nonfinal_star", "corrupt_foreign_char",
           "corrupt_invalid_utf8", "valid_with_star", "numbered_layout", "panel_compared", "permutants_constructor",
           "no_final_newline", "reference_rejects", "reference_accepts"]
@@ -257,6 +257,8 @@ def gen_step(rnd, frnd, big=False):
         st["twin"] = {"mut": rnd.choice(("sites", "palette"))}
     if api == "parser" and rnd.random() < 0.3:
         st["silent"] = True
+    if api == "parser" and rnd.random() < 0.5:
+        st["shared_parser"] = True
     return st
 
 
@@ -270,7 +272,7 @@ def gen_plan(streams, tier):
             # read a file that is already on the disk once more (nothing is written)
             prev = rnd.choice(steps)
             st = {"reuse": True, "path": prev["path"], "fault": {"chunks": rnd.choice((None, [1], [3, 2])), "eio_at": None, "open": None},
-                  "api": rnd.choice(("parser", "SP", "perm")), "meta": {"reuse": True}}
+                  "api": rnd.choice(("parser", "parser", "SP", "perm")), "meta": {"reuse": True}, "shared_parser": rnd.random() < 0.6}
             if st["api"] == "SP" and rnd.random() < 0.5:
                 st["twin"] = {"mut": rnd.choice(("sites", "palette"))}
         else:
@@ -318,6 +320,10 @@ def corpus():
              "api": "parser", "meta": {}, "path": path}
         d.update(kw)
         return d
+    out.append(("one_parser_object_for_several_files", {"property": ID, "run_seed": 163, "steps": [
+        st(">a\nACDEFGHIK\n", shared_parser=True), st(">b\nLMNPQ\n", path="/sim/other.txt", shared_parser=True),
+        {"reuse": True, "path": PATH, "fault": {"chunks": None, "eio_at": None, "open": None}, "api": "parser", "meta": {}, "shared_parser": True},
+        st("ACD*EF\n", shared_parser=True), st(">c\nRSTVWY*\n", shared_parser=True)]}))
     out.append(("same_path_rewritten", {"property": ID, "run_seed": 160, "steps": [
         st(">a\nACDEFGHIK\n"), st(">b\nLMNPQ\nRSTVWY\n"), {"reuse": True, "path": PATH, "fault": {"chunks": [1], "eio_at": None, "open": None}, "api": "SP", "meta": {}},
         st("KKKK\n", path="/sim/other.txt", api="perm"), {"reuse": True, "path": PATH, "fault": {"chunks": None, "eio_at": None, "open": None}, "api": "parser", "meta": {}}]}))
@@ -412,6 +418,9 @@ def execute(plan, ctx):
     finally:
         fs.cleanup()
     ctx.count("fs_events", fs.nevents)
+
+
+SHARED = {}
 
 
 def do_step(k, plan, fs, ctx, rnd, sfp):
@@ -511,10 +520,19 @@ def do_step(k, plan, fs, ctx, rnd, sfp):
         val = None
         try:
             if api == "parser":
-                if plan.get("silent"):
-                    val = sfp.SequenceFileParser().parseSeqFile(path, silent=True)
+                if plan.get("shared_parser"):
+                    # the caller keeps one parser object for all its files ("a stateless sequence parsing machine")
+                    if "parser" not in SHARED:
+                        SHARED["parser"] = sfp.SequenceFileParser()
+                    else:
+                        ctx.probe("parser_instance_reused")
+                    parser = SHARED["parser"]
                 else:
-                    val = sfp.SequenceFileParser().parseSeqFile(path)
+                    parser = sfp.SequenceFileParser()
+                if plan.get("silent"):
+                    val = parser.parseSeqFile(path, silent=True)
+                else:
+                    val = parser.parseSeqFile(path)
             elif api == "SP":
                 val = SequenceParameters(sequenceFile=path)
             else:
